@@ -311,10 +311,17 @@ func doWrapperOp(tr *tree.BTree, op WOp, ver int) linOut {
 	switch op.Kind {
 	case "ins":
 		tr.Insert(Item{op.Key, ver})
-	case "upd":
-		out.B = tr.Update(Item{K: op.Key}, Item{op.Key2, ver})
-	case "upsert":
-		out.B = tr.UpdateOrInsert(Item{K: op.Key}, Item{op.Key2, ver})
+	case "upd", "upsert":
+		var newV tree.Node = Item{op.Key2, ver}
+		var oldV tree.Node = Item{K: op.Key}
+		if op.Same {
+			oldV = newV // one and the same value as old and as new
+		}
+		if op.Kind == "upd" {
+			out.B = tr.Update(oldV, newV)
+		} else {
+			out.B = tr.UpdateOrInsert(oldV, newV)
+		}
 	case "del":
 		out.B = tr.Delete(Item{K: op.Key})
 	case "get":
@@ -328,6 +335,13 @@ func doWrapperOp(tr *tree.BTree, op WOp, ver int) linOut {
 	default:
 		f := filterFn(op.Filter, op.FArg)
 		wf := func(n tree.Node) bool { x, ok := n.(Item); return ok && f(x) }
+		if op.Spin > 0 && op.Spin <= maxFilterSpin {
+			wf = func(n tree.Node) bool {
+				burn(op.Spin)
+				x, ok := n.(Item)
+				return ok && f(x)
+			}
+		}
 		p := pivotOf(keyPtr(op.NilPivot, op.Key))
 		var raw []tree.Node
 		switch op.Kind {
@@ -347,6 +361,18 @@ func doWrapperOp(tr *tree.BTree, op WOp, ver int) linOut {
 		out.Items = items
 	}
 	return out
+}
+
+// maxFilterSpin bounds WOp.Spin (loop iterations per visited item).
+const maxFilterSpin = 1 << 22
+
+// burn runs n iterations of a loop the compiler cannot remove.
+func burn(n int) {
+	var x int64
+	for i := 0; i < n; i++ {
+		x += int64(i) ^ x<<1
+	}
+	spinSink.Store(x)
 }
 
 func validWOp(op WOp) bool {
@@ -399,9 +425,9 @@ func describeLinOp(o porcupine.Operation) string {
 	case "ins":
 		call, ret = fmt.Sprintf("Insert(%d#%d)", in.Op.Key, in.Ver), "-"
 	case "upd":
-		call, ret = fmt.Sprintf("Update(%d -> %d#%d)", in.Op.Key, in.Op.Key2, in.Ver), fmt.Sprint(out.B)
+		call, ret = fmt.Sprintf("Update(%d -> %d#%d)", in.Op.oldKey(), in.Op.Key2, in.Ver), fmt.Sprint(out.B)
 	case "upsert":
-		call, ret = fmt.Sprintf("UpdateOrInsert(%d -> %d#%d)", in.Op.Key, in.Op.Key2, in.Ver), fmt.Sprint(out.B)
+		call, ret = fmt.Sprintf("UpdateOrInsert(%d -> %d#%d)", in.Op.oldKey(), in.Op.Key2, in.Ver), fmt.Sprint(out.B)
 	case "del":
 		call, ret = fmt.Sprintf("Delete(%d)", in.Op.Key), fmt.Sprint(out.B)
 	case "get":
@@ -527,14 +553,14 @@ var PartLin = &vkit.Part[CaseL]{
 	Property: Property, Name: "lin",
 	Rule:  linRule,
 	Quick: 6000, Thorough: 20000,
-	Gen: GenLin, Exec: execLin("lin."),
+	Gen: GenLin, Exec: guarded("lin.", execLin("lin.")),
 }
 
 var PartRaceLin = &vkit.Part[CaseL]{
 	Property: Property, Name: "race-lin",
 	Rule:  linRule + " (binary built with -race: unlocked access is reported by the detector)",
 	Quick: 2000, Thorough: 4000,
-	Gen: GenLin, Exec: execLin("race-lin."),
+	Gen: GenLin, Exec: guarded("race-lin.", execLin("race-lin.")),
 }
 
 // ---------------------------------------------------------------------------
@@ -568,7 +594,14 @@ type CaseS struct {
 	Reps    int     `json:"reps"`    // each writer runs its program Reps times
 	Movers  []Mover `json:"movers"`
 	Readers [][]WOp `json:"readers"` // scans and gets, repeated until the writers are done
+	// SlowPasses: in its first SlowPasses passes a reader honours WOp.Spin (a filter that burns
+	// time per visited item, so the scan holds the read lock for tens of milliseconds while the
+	// movers queue up behind it); later passes run the same scans at full speed.
+	SlowPasses int `json:"slow_passes,omitempty"`
 }
+
+// maxSlot bounds the slot numbers of static keys and movers.
+const maxSlot = 5000
 
 func ownerOf(k int) int { return ((k % stride) + stride) % stride }
 
@@ -749,7 +782,7 @@ func execStress(sitePrefix string) func(c CaseS) *vkit.Result {
 		lay := &stressLayout{static: map[int]bool{}}
 		final := &Model{} // what the tree must hold at the end
 		for _, s := range c.Static {
-			if s < 0 || s >= 1000 {
+			if s < 0 || s >= maxSlot {
 				res.Skip("static-slot-out-of-range")
 				continue
 			}
@@ -765,7 +798,7 @@ func execStress(sitePrefix string) func(c CaseS) *vkit.Result {
 		}
 		var movers []*moverState
 		for j, mv := range c.Movers {
-			if mv.SlotA == mv.SlotB || mv.SlotA < 0 || mv.SlotB < 0 || mv.SlotA >= 1000 || mv.SlotB >= 1000 || mv.Moves < 0 || mv.Moves > 100000 {
+			if mv.SlotA == mv.SlotB || mv.SlotA < 0 || mv.SlotB < 0 || mv.SlotA >= maxSlot || mv.SlotB >= maxSlot || mv.Moves < 0 || mv.Moves > 100000 {
 				res.Skip("malformed-mover")
 				continue
 			}
@@ -787,6 +820,13 @@ func execStress(sitePrefix string) func(c CaseS) *vkit.Result {
 		if len(lay.static) >= wideSpan {
 			res.Class("256+-static-keys")
 		}
+		if len(lay.static) > 1024 {
+			res.Class("1024+-static-keys")
+		}
+		if len(lay.static) > 4096 {
+			res.Class("4096+-static-keys")
+		}
+		var slowScans atomic.Int64
 		var (
 			wg, rg       sync.WaitGroup
 			done         atomic.Bool
@@ -887,6 +927,11 @@ func execStress(sitePrefix string) func(c CaseS) *vkit.Result {
 								continue
 							}
 							ctx := fmt.Sprintf("reader %d pass %d op %d", r, pass, i)
+							if pass >= c.SlowPasses {
+								op.Spin = 0
+							} else if op.Spin > 0 && scan && !done.Load() {
+								slowScans.Add(1)
+							}
 							out := doWrapperOp(tr, op, 0)
 							if out.Bad != "" {
 								pr.Failf(site, "%s: foreign value %s", ctx, out.Bad)
@@ -960,6 +1005,9 @@ func execStress(sitePrefix string) func(c CaseS) *vkit.Result {
 		if len(movers) > 0 {
 			res.Class("has-movers")
 		}
+		if slowScans.Load() > 0 {
+			res.Class("slowed-scan-while-writers-active")
+		}
 		if lay.judged.Load() > 0 {
 			res.Class("scan-judged-a-mover-pair")
 		}
@@ -981,12 +1029,12 @@ var PartStress = &vkit.Part[CaseS]{
 	Property: Property, Name: "stress",
 	Rule:  stressRule,
 	Quick: 600, Thorough: 1000,
-	Gen: GenStress, Exec: execStress("stress."),
+	Gen: GenStress, Exec: guarded("stress.", execStress("stress.")),
 }
 
 var PartRaceStress = &vkit.Part[CaseS]{
 	Property: Property, Name: "race-stress",
 	Rule:  stressRule + " (binary built with -race)",
 	Quick: 120, Thorough: 400,
-	Gen: GenStress, Exec: execStress("race-stress."),
+	Gen: GenStress, Exec: guarded("race-stress.", execStress("race-stress.")),
 }
